@@ -37,6 +37,93 @@ def simple(ctx):
     return ctx.chk.merge([ctx.harness()])
 
 
+# ---- C16: the registry monitor under several cargo feature sets ---------------------------------
+# label -> features of harness/c16probe (which forward to dicom-transfer-syntax-registry)
+C16_FEATURE_SETS = [
+    ("default(rayon,simd)", ["registry-default"]),
+    ("none", []),
+    ("deflate", ["deflate"]),
+    ("rle", ["rle"]),
+    ("jpeg", ["jpeg"]),
+    ("native,inventory-registry", ["native", "registry-default", "inventory"]),
+    ("native,deflate,jpegxl", ["native", "deflate", "jpegxl", "registry-default"]),
+]
+# feature sets whose dependencies may be missing from the offline registry: reported, not failed
+C16_OPTIONAL = {"native,deflate,jpegxl"}
+
+
+def c16_probe_manifest(ctx):
+    """Manifest of the probe crate; for an alternative repository tree a redirected copy."""
+    import shutil
+    chk = ctx.chk
+    src_dir = os.path.join(chk.ROOT, "harness", "c16probe")
+    manifest = os.path.join(src_dir, "Cargo.toml")
+    if chk.REPO != "/repo":
+        alt = os.path.join(chk.WORK, "manifest-c16probe")
+        os.makedirs(alt, exist_ok=True)
+        m = open(manifest).read().replace('"/repo/', '"%s/' % chk.REPO)
+        m = m.replace("[workspace]", '[[bin]]\nname = "c16probe"\npath = "%s"\n\n[workspace]'
+                      % os.path.join(src_dir, "src", "main.rs"))
+        manifest = os.path.join(alt, "Cargo.toml")
+        if not os.path.exists(manifest) or open(manifest).read() != m:
+            open(manifest, "w").write(m)
+    lock = os.path.join(os.path.dirname(manifest), "Cargo.lock")
+    if not os.path.exists(lock):
+        shutil.copy(os.path.join(chk.REPO, "Cargo.lock"), lock)
+    return manifest
+
+
+def c16(ctx):
+    import subprocess
+    chk = ctx.chk
+    legs = [ctx.harness(result="leg-harness.json")]
+    built, skipped = ["native,deflate (main harness)"], []
+    if ctx.replay:
+        return chk.merge(legs)
+    manifest = c16_probe_manifest(ctx)
+    probe_bin = os.path.join(chk.TARGET, "release", "c16probe")
+    for label, feats in C16_FEATURE_SETS:
+        cmd = ["cargo", "build", "--offline", "--release", "--manifest-path", manifest,
+               "--no-default-features"]
+        if feats:
+            cmd += ["--features", ",".join(feats)]
+        r = chk.run(cmd, stdout=subprocess.PIPE, stderr=subprocess.STDOUT, text=True)
+        if r.returncode != 0:
+            if label in C16_OPTIONAL:
+                skipped.append(label)
+                chk.log("[C16] feature set [%s] does not build offline: skipped" % label)
+                continue
+            chk.log(r.stdout[-4000:])
+            raise chk.Inconclusive("C16 probe build failed for feature set [%s]" % label)
+        out = os.path.join(ctx.work, "probe-%s.json" % "".join(c if c.isalnum() else "_" for c in label))
+        if os.path.exists(out):
+            os.remove(out)
+        try:
+            r = chk.run([probe_bin, label, out], stdout=subprocess.PIPE, stderr=subprocess.PIPE,
+                        text=True, timeout=600)
+        except subprocess.TimeoutExpired:
+            raise chk.Inconclusive("C16 probe watchdog fired for feature set [%s]" % label)
+        chk.log(r.stderr.strip()[-500:])
+        if r.returncode != 0 or not os.path.exists(out):
+            raise chk.Inconclusive("C16 probe exited with %s for feature set [%s]" % (r.returncode, label))
+        legs.append(json.load(open(out)))
+        built.append(label)
+    merged = chk.merge(legs)
+    merged["extra"]["feature_sets_checked"] = built
+    merged["extra"]["feature_sets_not_buildable_offline"] = skipped
+    merged["extra"]["feature_sets_not_attempted"] = ["charls", "openjp2", "openjpeg-sys (C/C++ builds)"]
+    if skipped:
+        merged["notes"].append("feature sets that do not build offline (uncovered): %s" % ", ".join(skipped))
+    return merged
+
+
 PROPS = {
     "C01": {"run": simple, "level": "exploration"},
+    "C11": {"run": simple, "level": "exploration"},
+    "C12": {"run": simple, "level": "exploration"},
+    "C14": {"run": simple, "level": "exploration"},
+    "C15": {"run": simple, "level": "exploration"},
+    "C16": {"run": c16, "level": "exploration",
+            "assumptions": ["feature sets needing C/C++ toolchains (charls, openjpeg) are not built"]},
+    "C17": {"run": simple, "level": "exploration"},
 }
